@@ -144,6 +144,7 @@ def build(tier, seed):
     keyed.sort(key=lambda t: t[:3])
     cases = [t[3] for t in keyed]
     return {
+        'rule_more': "'hist' cases: {Signal, AccSignal} x 10 operations of the statement: operation, then each mutator of the C04 alphabet, then the operation again vs the operation on a fresh object holding the same record (remove_poly also: best-fit polynomial zero)",
         'cases': cases,
         'rule': "kind 'gain': complete product cut-offs %s x container {tuple, list, ndarray (band-pass only)} x order %s x "
                 "remove_gibbs %s (one pool case each; same menu in both tiers, nothing thinned) with all bins k in %s x "
